@@ -70,3 +70,27 @@ Definition shape_wf (s : opshape) : bool :=
       match inst_len args body_out with Some n => Z.eqb n inst_out | None => false end
   | SLoop j r => (0 <=? j) && (0 <=? r)
   end.
+
+(* ---- a node made from an operation of a given kind wired to inputs of given types: its value outputs ----
+   Written from the operations' dataflow signatures, without reference to the operation object's history:
+   UnpackTuple of a k-tuple has k outputs, CallIndirect of a function value nin -> nout (followed by its nin
+   arguments) has nout, MakeTuple / Noop have one, an operation carrying its signature has that signature's. *)
+Inductive okind := KUnpack | KCallInd | KMake | KNoop | KFixed (nout : Z).
+Definition kind_of (o : opobj) : okind :=
+  match o with OUnpack _ => KUnpack | OCallInd _ => KCallInd | OMake _ => KMake | ONoop _ => KNoop | OFixed n => KFixed n end.
+Definition wty_wf (w : wty) : bool :=
+  match w with WVal => true | WTup k => 0 <=? k | WFn a b => (0 <=? a) && (0 <=? b) end.
+Definition use_outputs (k : okind) (ws : list wty) : option Z :=
+  match k, ws with
+  | KUnpack, [WTup n] => Some n
+  | KCallInd, WFn a b :: args => if Z.of_nat (length args) =? a then Some b else None
+  | KMake, _ => Some 1
+  | KNoop, [_] => Some 1
+  | KFixed n, _ => Some n
+  | _, _ => None
+  end.
+(* guard: the wiring fits the kind of operation and every count is a length *)
+Definition use_wf (k : okind) (ws : list wty) : bool :=
+  forallb wty_wf ws &&
+  match k with KFixed n => 0 <=? n | _ => true end &&
+  match use_outputs k ws with Some _ => true | None => false end.
